@@ -118,6 +118,8 @@ impl Selector {
             // it's safe to remove the timer since we are running the timer_list in the same thread
             #[cfg(feature = "io_timeout")]
             data.timer.borrow_mut().take().map(|h| {
+                #[cfg(may_verif)]
+                data.io_flag.mark("t.disarm", 0, 0);
                 unsafe {
                     // tell the timer handler not to cancel the io
                     // it's not always true that you can really remove the timer entry
@@ -206,6 +208,8 @@ impl Selector {
     pub fn del_fd(&self, io_data: &IoData) {
         #[cfg(feature = "io_timeout")]
         if let Some(h) = io_data.timer.borrow_mut().take() {
+            #[cfg(may_verif)]
+            io_data.io_flag.mark("t.disarm", 1, 0);
             unsafe {
                 // mark the timer as removed if any, this only happened
                 // when cancel an IO. what if the timer expired at the same time?
@@ -220,6 +224,8 @@ impl Selector {
         let single_selector = &self.vec[id];
         let epoll = &single_selector.epoll;
         info!("del fd from epoll select, fd={fd:?}");
+        #[cfg(may_verif)]
+        io_data.io_flag.mark("io.del", 0, 0);
         epoll.delete(unsafe { BorrowedFd::borrow_raw(fd) }).ok();
 
         // after EpollCtlDel push the unused event data
@@ -240,11 +246,15 @@ impl Selector {
     pub fn add_io_timer(&self, io: &IoData, timeout: Duration) {
         let id = io.fd as usize % self.vec.len();
         // info!("io timeout = {:?}", dur);
+        #[cfg(may_verif)]
+        io.io_flag.mark("t.arm", timeout.as_nanos() as u64, 0);
         let (h, b_new) = self.vec[id].timer_list.add_timer(timeout, io.timer_data());
         if b_new {
             // wake up the event loop thread to recall the next wait timeout
             self.wakeup(id);
         }
         io.timer.borrow_mut().replace(h);
+        #[cfg(may_verif)]
+        io.io_flag.mark("t.set", 0, 0);
     }
 }
